@@ -43,7 +43,21 @@ def _meta_of(segno, code):
 
 
 def observe_encode(args, result):
-    """The shared post-condition body for encoder.encode."""
+    """The shared post-condition body for encoder.encode. An error inside the
+    monitor must never leak into the observed program: it is recorded (and
+    makes the run inconclusive) and the condition still returns True."""
+    try:
+        return _observe_encode(args, result)
+    except Exception:  # noqa: BLE001
+        import traceback
+        State.rec.count('monitor_errors')
+        State.rec.extra.setdefault('monitor_error_samples', [])
+        if len(State.rec.extra['monitor_error_samples']) < 3:
+            State.rec.extra['monitor_error_samples'].append(traceback.format_exc()[-800:])
+        return True
+
+
+def _observe_encode(args, result):
     import segno
     rec = State.rec
     rec.count('encode_observed')
